@@ -129,6 +129,19 @@ void run_sweep(Stats& st) {
 		tp[0] = uint8_t(variant); tp[1] = 12;
 		Tape t(tp); map_case(m, t, st);
 	}
+	// every table on its own grown past 64 KiB and 128 KiB of serialised bytes (a staging block of such a size must not show), with eight
+	// alignments of the group section so that the block boundary falls into dimensions, index arrays, name lengths and names
+	for (unsigned which = 0; which < 4; ++which) for (unsigned v = 0; v < (which == 0 ? 8u : 2u); ++v) {
+		if (!sw("big_section", which, v)) continue;
+		LMap m; m.lgWidth = 5; m.height = 1; m.tiles.assign(32, 0x12345678); m.versionTag = 0x1011; m.clip[0] = 1; m.clip[1] = 2; m.clip[2] = 3; m.clip[3] = 4;
+		if (which == 0) for (unsigned i = 0; i < 3000; ++i) { refmap::Group g; g.w = 3; g.h = 3 - (i % 7 == 0); g.indices.resize(size_t(g.w) * g.h); for (size_t k = 0; k < g.indices.size(); ++k) g.indices[k] = uint16_t(i * 9 + k); g.name = std::string((i + v) % 8 + (i % 501 == 0 ? 300 : 0), char('a' + i % 26)); if (!g.name.empty()) g.name[0] = char('A' + (i >> 5) % 26); m.groups.push_back(g); }
+		if (which == 1) for (unsigned i = 0; i < 300u + 300u * v; ++i) { std::array<uint8_t, 264> a; for (size_t k = 0; k < 264; ++k) a[k] = uint8_t(k * 3 + i); a[0] = uint8_t(i); a[1] = uint8_t(i >> 8); m.terrains.push_back(a); }
+		if (which == 2) for (unsigned i = 0; i < 9000u + 9000u * v; ++i) m.mappings.push_back({uint16_t(i), uint16_t(i * 3), uint16_t(i >> 3), uint16_t(~i)});
+		if (which == 3) for (unsigned i = 0; i < 5000u + 6000u * v; ++i) { refmap::Source src; if (i % 5) { src.name = "t" + std::to_string(i % 9973); src.numTiles = i; } m.sources.push_back(src); }
+		m.unknownWord = uint32_t(m.groups.size());
+		for (size_t i = 0; i < tp.size(); ++i) tp[i] = uint8_t(i * 31 + which * 5 + v); tp[0] = uint8_t(v); tp[1] = uint8_t(which);
+		Tape t(tp); map_case(m, t, st);
+	}
 	st.exhaustive = true;
 }
 
